@@ -15,6 +15,7 @@ import (
 	"fmt"
 	"net/http"
 	"os"
+	"os/exec"
 	"path/filepath"
 	"sort"
 	"strings"
@@ -234,6 +235,44 @@ func c51ThreshClass(k c51NextCase) string {
 	}
 }
 
+// c51F7Witnesses are members of the F7 class, smallest first.
+var c51F7Witnesses = []c51NextCase{
+	{Lifetime: 0, RenewBefore: 0, NowOff: 0},
+	{Lifetime: 29, RenewBefore: 0, NowOff: 0},
+	{Lifetime: 90 * c51Day, RenewBefore: 9, NowOff: 0},
+}
+
+// TestC51F7Witness is the child-process half of c51F7WitnessInChild.
+func TestC51F7Witness(t *testing.T) {
+	if os.Getenv("VF_C51_WITNESS") == "" {
+		t.Skip("helper for TestC51")
+	}
+	for _, k := range c51F7Witnesses {
+		if _, p := c51CallNext(k); p != "" {
+			fmt.Printf("C51-WITNESS-PANIC: %s\n", p)
+			return
+		}
+	}
+	fmt.Println("C51-WITNESS-OK")
+}
+
+// c51F7WitnessInChild re-executes the test binary to replay the F7 witnesses
+// and returns the panic description ("" when none panics).
+func c51F7WitnessInChild() (string, error) {
+	cmd := exec.Command(os.Args[0], "-test.run=^TestC51F7Witness$", "-test.timeout=60s")
+	cmd.Env = append(os.Environ(), "VF_C51_WITNESS=1", "VF_EVIDENCE_OUT=")
+	out, err := cmd.CombinedOutput()
+	for _, line := range strings.Split(string(out), "\n") {
+		if strings.HasPrefix(line, "C51-WITNESS-PANIC: ") {
+			return strings.TrimPrefix(line, "C51-WITNESS-PANIC: "), nil
+		}
+		if strings.HasPrefix(line, "C51-WITNESS-OK") {
+			return "", nil
+		}
+	}
+	return "", fmt.Errorf("no verdict from child (%v): %.200s", err, out)
+}
+
 // c51RenewalPart runs the scheduler half of the property.
 func c51RenewalPart(t *testing.T, c *ev.Collector) {
 	_, f7Listed := ev.IsKnownFinding("F7")
@@ -241,29 +280,37 @@ func c51RenewalPart(t *testing.T, c *ev.Collector) {
 		c.Violation(what, "")
 		t.Fatalf("VF-VIOLATION: property=C51 %s", what)
 	}
+	// (0) While F7 is listed as an unrepaired finding its witness is replayed in a
+	// child process: the panic leaves the package-global RNG mutex locked, which
+	// would block every later scheduler call (and every Manager scenario) here.
+	if f7Listed {
+		if w, err := c51F7WitnessInChild(); err != nil {
+			c.Assumption("F7 witness could not be replayed in a child process: " + err.Error())
+		} else if w != "" {
+			c.Known("F7 " + w + " (threshold below 10ns -> rand.Int63n bound <= 0, leaving the package RNG mutex locked)")
+		}
+	}
 	// (1) bounded-exhaustive grid over the tiny region where the jitter bound
-	// degenerates: lifetime 0..45ns x RenewBefore 0..14ns x a few clocks.  This
+	// degenerates: lifetime -6..45ns x RenewBefore 0..14ns x a few clocks.  This
 	// re-derives F7 (panic exactly when the threshold is below 10ns).
-	n, f7Seen, f7Total := 0, 0, 0
-	var f7Witness string
-	for life := time.Duration(-6); life <= 45; life++ {
+	n := 0
+	lifetimes := []time.Duration{}
+	for life := time.Duration(0); life <= 45; life++ {
+		lifetimes = append(lifetimes, life)
+	}
+	for life := time.Duration(-6); life < 0; life++ {
+		lifetimes = append(lifetimes, life)
+	}
+	for _, life := range lifetimes {
 		for rb := time.Duration(0); rb <= 14; rb++ {
 			for _, nowOff := range []time.Duration{-5, 0, life / 2, life, life + 7} {
 				k := c51NextCase{Lifetime: life, RenewBefore: rb, NowOff: nowOff}
-				inClass := c51F7Class(life, rb)
-				if inClass {
-					f7Total++
+				if f7Listed && c51F7Class(life, rb) {
+					c.Excluded()
+					continue
 				}
 				d, p := c51CallNext(k)
 				if p != "" {
-					if f7Listed && inClass {
-						// Known, still present.  The panic leaves the package RNG
-						// mutex locked: nothing else can be asked of next() in
-						// this process.
-						f7Seen++
-						f7Witness = p
-						break
-					}
 					fail(p)
 				}
 				if err := c51CheckNext(k, d); err != nil {
@@ -272,20 +319,9 @@ func c51RenewalPart(t *testing.T, c *ev.Collector) {
 				n++
 				c.Case(true, fmt.Sprintf("grid|%s|now%+d", c51ThreshClass(k), int64(nowOff-life)), "next:grid", "next:"+c51ThreshClass(k))
 			}
-			if f7Seen > 0 {
-				break
-			}
-		}
-		if f7Seen > 0 {
-			break
 		}
 	}
 	c.Exhaustive("next(): lifetime -6..45ns x RenewBefore 0..14ns x 5 clocks", n)
-	if f7Seen > 0 {
-		c.Known("F7 " + f7Witness + " (threshold below 10ns -> rand.Int63n bound <= 0); the panic leaves the package RNG mutex locked, so the scheduler search is skipped for the rest of this run")
-		c.Excluded()
-		return
-	}
 	// (2) generated search
 	rapid.Check(t, func(rt *rapid.T) {
 		for i := 0; i < 64; i++ {
